@@ -52,7 +52,7 @@ def validate_trace(trace_spec, trace, deviations, workdir, parts=8, heap="3g", c
     """Validate one trace file against a trace spec. Returns dict with accepted, fail_line, deviations, skips."""
     chunks, lines = split_trace(trace, parts, workdir)
     cfg = os.path.join(workdir, "trace.cfg")
-    k = {"Deviations": c.tla_set(deviations)}
+    k = {"Deviations": c.tla_set(deviations), "CheckMem": "FALSE"}
     if consts:
         k.update(consts)
     write_cfg(cfg, k, invariants=["Report"], post="TraceAccepted")
